@@ -871,6 +871,18 @@ pub fn make_dut(env: &EnvRef) -> Box<dyn Dut> {
             (ChipKind::Sx1276, _) => stack!(K1276, 256),
         };
     }
+    // an uplink-only device: no room for any downlink (board 0)
+    if env.borrow().cfg.dl_queue0 {
+        let mut e = env.borrow_mut();
+        e.cfg.board = 0;
+        e.cfg.small_buffer = false;
+        e.cfg.lazy_app = false;
+        drop(e);
+        return match fe {
+            Frontend::Nb => Box::new(NbDut::<14, 0, 256, 0>::new(env)) as Box<dyn Dut>,
+            _ => Box::new(AsyncDut::<SimRadio<14, 0>, 256, 0>::new(env)) as Box<dyn Dut>,
+        };
+    }
     // the default downlink queue (one entry) under an application that rarely collects its downlinks (board 0)
     if env.borrow().cfg.lazy_app {
         let mut e = env.borrow_mut();
